@@ -1,13 +1,14 @@
 \* faithful model: both references exist (submitted_futures and the shared term_to_vars)
+\* four ids, two tests
 SPECIFICATION Spec
 CONSTANTS
   Ids = {1, 2, 3, 4}
-  Cons = {"a", "b", "c", "d"}
-  UnsatFamily = {{"a", "b"}, {"b", "c", "d"}}
+  Cons = {"a", "b", "c"}
+  UnsatFamily = {{"a", "b"}}
   PinFutures = TRUE
   PinTermVars = TRUE
   MaxTests = 2
   MaxInflight = 1
-  MaxCores = 2
+  MaxCores = 1
 INVARIANTS TypeOK HashConsed CacheSound CoresDenoteUnsat
 PROPERTIES PinnedStable
